@@ -7,4 +7,5 @@ cd /verif
 "$@"
 rc=$?
 git -C /repo checkout -- .
+git -C /repo clean -fdq -- src shred-derive tests examples benches
 exit $rc
